@@ -6,6 +6,11 @@
   and a finished IOCB (COMPLETED / ABORTED) keeps its state, response and
   error for ever.  No invariant is needed: the two guards of
   `IOController.complete_io` / `abort_io` are all there is to it.
+
+  RE-ENTRANCY: every lemma is stated for an arbitrary callback behaviour `F`
+  that itself satisfies the equation (`CbKeeps F`) — the operations a callback
+  issues are operations of this very layer, so `cb0` (nothing) and `cb1` (the
+  armed script, run at level 0) do.
 -/
 import BacVerif.Model.Iocb
 namespace BacVerif.Iocb
@@ -142,25 +147,37 @@ theorem keeps_finish (l : List Iocb) (j : Nat) (f : Iocb → Iocb) (id : Nat) {i
     · simp only [hji, if_false]
       exact ⟨io', hio, rfl, rfl, rfl⟩
 
-/-! ### the operations -/
+/-! ### the operations, for any callback behaviour that keeps the equation -/
 
-theorem fire_iocbs (s : St) (j : Nat) : (fire s j).1.iocbs = s.iocbs := by
-  unfold fire
-  split
-  · rfl
-  · dsimp only
-    split <;> rfl
+/-- the callback behaviour `F` satisfies the equation for every IOCB -/
+def CbKeeps (F : Cb) : Prop :=
+  ∀ (s : St) (j id : Nat), Keeps id s.iocbs (F s j).1.iocbs (F s j).2
 
-theorem fire_outs (s : St) (j : Nat) {io : Iocb} (h : s.iocbs[j]? = some io) :
-    (fire s j).2 = [.callback j io.st io.resp io.err] := by
-  unfold fire
-  rw [h]
+theorem dequeue_iocbs (s : St) (io : Iocb) (j : Nat) : (dequeue s io j).iocbs = s.iocbs := by
+  unfold dequeue; split <;> rfl
 
 theorem nonterminal_of_ne {st : IoSt} (h1 : st ≠ .completed) (h2 : st ≠ .aborted) : st.terminal = false := by
   cases st <;> simp [IoSt.terminal] at h1 h2 ⊢
 
-theorem baseComplete_keeps (s : St) (j : Nat) (msg : Option Nat) (id : Nat) :
-    Keeps id s.iocbs (baseComplete s j msg).1.iocbs (baseComplete s j msg).2 := by
+/-- the callback fires for an IOCB that has just been finished by the update `f` -/
+theorem fire_finish {F : Cb} (hF : CbKeeps F) (s : St) (j : Nat) (f : Iocb → Iocb) (id : Nat) {io : Iocb}
+    (hj : s.iocbs[j]? = some io) (hnt : io.st.terminal = false) (hf : (f io).st.terminal = true) :
+    Keeps id s.iocbs (fire F { s with iocbs := updI s.iocbs j f } j).1.iocbs
+      (fire F { s with iocbs := updI s.iocbs j f } j).2 := by
+  have hnew : ({ s with iocbs := updI s.iocbs j f } : St).iocbs[j]? = some (f io) := by
+    simp [getElem?_updI, hj]
+  unfold fire
+  rw [hnew]
+  dsimp only
+  have h1 := keeps_finish s.iocbs j f id hj hnt hf (f io).st (f io).resp (f io).err
+  have h2 := hF (dequeue { s with iocbs := updI s.iocbs j f } (f io) j) j id
+  rw [dequeue_iocbs] at h2
+  exact h1.trans h2
+
+variable {F : Cb}
+
+theorem baseComplete_keeps (hF : CbKeeps F) (s : St) (j : Nat) (msg : Option Nat) (id : Nat) :
+    Keeps id s.iocbs (baseComplete F s j msg).1.iocbs (baseComplete F s j msg).2 := by
   unfold baseComplete
   cases hj : s.iocbs[j]? with
   | none => exact Keeps.refl _ _
@@ -171,15 +188,10 @@ theorem baseComplete_keeps (s : St) (j : Nat) (msg : Option Nat) (id : Nat) :
     · split
       · exact Keeps.refl _ _
       · rename_i h1 h2
-        rw [fire_iocbs]
-        have hnew : ({ s with iocbs := updI s.iocbs j fun x => { x with st := .completed, resp := msg } } :
-            St).iocbs[j]? = some { io with st := .completed, resp := msg } := by
-          simp [getElem?_updI, hj]
-        rw [fire_outs _ _ hnew]
-        exact keeps_finish s.iocbs j _ id hj (nonterminal_of_ne h1 h2) rfl _ _ _
+        exact fire_finish hF s j _ id hj (nonterminal_of_ne h1 h2) rfl
 
-theorem baseAbort_keeps (s : St) (j err : Nat) (id : Nat) :
-    Keeps id s.iocbs (baseAbort s j err).1.iocbs (baseAbort s j err).2 := by
+theorem baseAbort_keeps (hF : CbKeeps F) (s : St) (j err : Nat) (id : Nat) :
+    Keeps id s.iocbs (baseAbort F s j err).1.iocbs (baseAbort F s j err).2 := by
   unfold baseAbort
   cases hj : s.iocbs[j]? with
   | none => exact Keeps.refl _ _
@@ -190,24 +202,19 @@ theorem baseAbort_keeps (s : St) (j err : Nat) (id : Nat) :
     · split
       · exact Keeps.refl _ _
       · rename_i h1 h2
-        rw [fire_iocbs]
-        have hnew : ({ s with iocbs := updI s.iocbs j fun x => { x with st := .aborted, err := some err } } :
-            St).iocbs[j]? = some { io with st := .aborted, err := some err } := by
-          simp [getElem?_updI, hj]
-        rw [fire_outs _ _ hnew]
-        exact keeps_finish s.iocbs j _ id hj (nonterminal_of_ne h1 h2) rfl _ _ _
+        exact fire_finish hF s j _ id hj (nonterminal_of_ne h1 h2) rfl
 
 theorem release_iocbs (s : St) (q : Nat) : (release s q).iocbs = s.iocbs := rfl
 
-theorem qComplete_keeps (s : St) (q j : Nat) (msg : Option Nat) (id : Nat) :
-    Keeps id s.iocbs (qComplete s q j msg).1.iocbs (qComplete s q j msg).2 := by
+theorem qComplete_keeps (hF : CbKeeps F) (s : St) (q j : Nat) (msg : Option Nat) (id : Nat) :
+    Keeps id s.iocbs (qComplete F s q j msg).1.iocbs (qComplete F s q j msg).2 := by
   unfold qComplete
-  exact baseComplete_keeps s j msg id
+  exact baseComplete_keeps hF s j msg id
 
-theorem qAbort_keeps (s : St) (q j err : Nat) (id : Nat) :
-    Keeps id s.iocbs (qAbort s q j err).1.iocbs (qAbort s q j err).2 := by
+theorem qAbort_keeps (hF : CbKeeps F) (s : St) (q j err : Nat) (id : Nat) :
+    Keeps id s.iocbs (qAbort F s q j err).1.iocbs (qAbort F s q j err).2 := by
   unfold qAbort
-  have := baseAbort_keeps s j err id
+  have := baseAbort_keeps hF s j err id
   dsimp only
   split
   · exact this
@@ -215,8 +222,9 @@ theorem qAbort_keeps (s : St) (q j err : Nat) (id : Nat) :
     · exact this
     · exact this
 
-theorem appComplete_keeps (s : St) (addr : Addr) (kind : Conf) (msg : Option Nat) (id : Nat) :
-    Keeps id s.iocbs (appComplete s addr kind msg).1.iocbs (appComplete s addr kind msg).2 := by
+theorem appComplete_keeps (hF : CbKeeps F) (s : St) (addr : Addr) (kind : Conf) (msg : Option Nat)
+    (id : Nat) :
+    Keeps id s.iocbs (appComplete F s addr kind msg).1.iocbs (appComplete F s addr kind msg).2 := by
   unfold appComplete
   split
   · exact Keeps.refl _ _
@@ -230,26 +238,26 @@ theorem appComplete_keeps (s : St) (addr : Addr) (kind : Conf) (msg : Option Nat
         exact ⟨by simp, (Keeps.refl id s.iocbs).frozen⟩
       | ack =>
         dsimp only
-        have := qComplete_keeps s q.qid j msg id
+        have := qComplete_keeps hF s q.qid j msg id
         split
         · exact this
         · split <;> exact this
       | err =>
         dsimp only
-        have := qAbort_keeps s q.qid j (msg.getD 0) id
+        have := qAbort_keeps hF s q.qid j (msg.getD 0) id
         split
         · exact this
         · split <;> exact this
 
-theorem launch_keeps (s : St) (q j : Nat) (id : Nat) :
-    Keeps id s.iocbs (launch s q j).1.iocbs (launch s q j).2 := by
+theorem launch_keeps (hF : CbKeeps F) (s : St) (q j : Nat) (id : Nat) :
+    Keeps id s.iocbs (launch F s q j).1.iocbs (launch F s q j).2 := by
   unfold launch
   cases hj : s.iocbs[j]? with
   | none => exact Keeps.refl _ _
   | some io =>
     dsimp only
     split
-    · exact qAbort_keeps s q j tokInvalidTransition id
+    · exact qAbort_keeps hF s q j tokInvalidTransition id
     · rename_i hst
       have hnt : io.st.terminal = false := by
         cases hs : io.st <;> simp [hs] at hst <;> rfl
@@ -260,22 +268,22 @@ theorem launch_keeps (s : St) (q j : Nat) (id : Nat) :
         refine ⟨by rw [hnt]; rfl, ?_⟩
         intro ht; rw [hnt] at ht; cases ht
       split
-      · have h2 := qAbort_keeps
+      · have h2 := qAbort_keeps hF
           { s with iocbs := updI s.iocbs j fun x => { x with st := .active },
                    queues := updQ s.queues q fun x => { x with busy := true, active := some j } }
           q j tokRequestFailed id
         exact (h1.trans h2).cons_sent
       · split
-        · have h2 := appComplete_keeps
+        · have h2 := appComplete_keeps hF
             { s with iocbs := updI s.iocbs j fun x => { x with st := .active },
                      queues := updQ s.queues q fun x => { x with busy := true, active := some j } }
             io.dest .ack none id
           exact (h1.trans h2).cons_sent
         · exact h1.cons_sent
 
-theorem launch_keeps' (s : St) (q j : Nat) (id : Nat) {l : List Iocb} (hl : s.iocbs = l) :
-    Keeps id l (launch s q j).1.iocbs (launch s q j).2 := by
-  subst hl; exact launch_keeps s q j id
+theorem launch_keeps' (hF : CbKeeps F) (s : St) (q j : Nat) (id : Nat) {l : List Iocb} (hl : s.iocbs = l) :
+    Keeps id l (launch F s q j).1.iocbs (launch F s q j).2 := by
+  subst hl; exact launch_keeps hF s q j id
 
 theorem keeps_append_new (l : List Iocb) (io : Iocb) (id : Nat) (h : io.st.terminal = false) :
     Keeps id l (l ++ [io]) [] := by
@@ -297,8 +305,8 @@ theorem keeps_append_new (l : List Iocb) (io : Iocb) (id : Nat) (h : io.st.termi
       rcases List.getElem?_eq_some_iff.1 hio with ⟨h, _⟩; exact h
     exact ⟨io', by rw [List.getElem?_append_left hlt]; exact hio, rfl, rfl, rfl⟩
 
-theorem submit_keeps (s : St) (dest prio : Nat) (unconf fails : Bool) (id : Nat) :
-    Keeps id s.iocbs (submit s dest prio unconf fails).1.iocbs (submit s dest prio unconf fails).2 := by
+theorem submit_keeps (hF : CbKeeps F) (s : St) (dest prio : Nat) (unconf fails : Bool) (id : Nat) :
+    Keeps id s.iocbs (submit F s dest prio unconf fails).1.iocbs (submit F s dest prio unconf fails).2 := by
   unfold submit
   dsimp only
   have h0 := keeps_append_new s.iocbs
@@ -322,7 +330,7 @@ theorem submit_keeps (s : St) (dest prio : Nat) (unconf fails : Bool) (id : Nat)
       obtain ⟨y, hy, rfl⟩ := hx
       exact ⟨rfl, fun ht => by cases ht⟩
     · refine h1.trans_nil ?_
-      exact launch_keeps' _ _ _ id rfl
+      exact launch_keeps' hF _ _ _ id rfl
   | none =>
     dsimp only
     have h1 := h0.trans (hctrl _ (some s.nextQ))
@@ -335,19 +343,19 @@ theorem submit_keeps (s : St) (dest prio : Nat) (unconf fails : Bool) (id : Nat)
       obtain ⟨y, hy, rfl⟩ := hx
       exact ⟨rfl, fun ht => by cases ht⟩
     · refine h1.trans_nil ?_
-      exact launch_keeps' _ _ _ id rfl
+      exact launch_keeps' hF _ _ _ id rfl
 
-theorem appAbort_keeps (s : St) (j tok : Nat) (id : Nat) :
-    Keeps id s.iocbs (appAbort s j tok).1.iocbs (appAbort s j tok).2 := by
+theorem appAbort_keeps (hF : CbKeeps F) (s : St) (j tok : Nat) (id : Nat) :
+    Keeps id s.iocbs (appAbort F s j tok).1.iocbs (appAbort F s j tok).2 := by
   unfold appAbort
   split
   · exact Keeps.refl _ _
   · split
-    · exact qAbort_keeps _ _ _ _ _
-    · exact baseAbort_keeps _ _ _ _
+    · exact qAbort_keeps hF _ _ _ _ _
+    · exact baseAbort_keeps hF _ _ _ _
 
-theorem trigger_keeps (s : St) (q : Nat) (id : Nat) :
-    Keeps id s.iocbs (trigger s q).1.iocbs (trigger s q).2 := by
+theorem trigger_keeps (hF : CbKeeps F) (s : St) (q : Nat) (id : Nat) :
+    Keeps id s.iocbs (trigger F s q).1.iocbs (trigger F s q).2 := by
   unfold trigger
   split
   · exact Keeps.refl _ _
@@ -361,7 +369,7 @@ theorem trigger_keeps (s : St) (q : Nat) (id : Nat) :
           apply keeps_updI
           intro x _
           exact ⟨rfl, fun _ => ⟨rfl, rfl, rfl⟩⟩
-        have h2 := launch_keeps
+        have h2 := launch_keeps hF
           { s with queues := updQ s.queues q fun x => { x with queue := rest },
                    iocbs := updI s.iocbs j fun x => { x with inq := none } } q j id
         have h := h1.trans h2
@@ -369,17 +377,44 @@ theorem trigger_keeps (s : St) (q : Nat) (id : Nat) :
         repeat' split
         all_goals exact h
 
+/-! ### the two callback behaviours -/
+
+theorem cb0_keeps : CbKeeps cb0 := fun s _ id => Keeps.refl id s.iocbs
+
+theorem runOp0_keeps (caller : Nat) (s : St) (op : CbOp) (id : Nat) :
+    Keeps id s.iocbs (runOp0 caller s op).1.iocbs (runOp0 caller s op).2 := by
+  cases op with
+  | submit dest prio unconf fails => exact submit_keeps cb0_keeps s dest prio unconf fails id
+  | abort j tok =>
+    simp only [runOp0]
+    split
+    · exact Keeps.refl _ _
+    · exact appAbort_keeps cb0_keeps s j tok id
+
+theorem runScript0_keeps (caller : Nat) (id : Nat) : ∀ (ops : List CbOp) (s : St),
+    Keeps id s.iocbs (runScript0 caller s ops).1.iocbs (runScript0 caller s ops).2 := by
+  intro ops
+  induction ops with
+  | nil => intro s; exact Keeps.refl _ _
+  | cons op ops ih =>
+    intro s
+    simp only [runScript0]
+    exact (runOp0_keeps caller s op id).trans (ih _)
+
+theorem cb1_keeps : CbKeeps cb1 := fun s j id => runScript0_keeps j id s.script { s with script := [] }
+
 /-- **one event of the IOCB layer**, seen from IOCB `id` -/
 theorem step_keeps (s : St) (e : Ev) (id : Nat) : Keeps id s.iocbs (step s e).1.iocbs (step s e).2 := by
   cases e with
-  | submit dest prio unconf fails => exact submit_keeps s dest prio unconf fails id
-  | abort j tok => exact appAbort_keeps s j tok id
-  | confirm addr kind tok => exact appComplete_keeps s addr kind (some tok) id
+  | submit dest prio unconf fails => exact submit_keeps cb1_keeps s dest prio unconf fails id
+  | abort j tok => exact appAbort_keeps cb1_keeps s j tok id
+  | confirm addr kind tok => exact appComplete_keeps cb1_keeps s addr kind (some tok) id
   | runDeferred =>
     simp only [step]
     split
     · exact Keeps.refl _ _
     · rename_i q rest _
-      exact trigger_keeps { s with deferred := rest } q id
+      exact trigger_keeps cb1_keeps { s with deferred := rest } q id
+  | arm sc => exact Keeps.refl _ _
 
 end BacVerif.Iocb
